@@ -433,6 +433,17 @@ fn err_kind_io(e: &std::io::Error) -> String {
 // ------------------------------------------------------------------------------------------------
 static PANIC_MSG: Mutex<String> = Mutex::new(String::new());
 
+/// `rd` (bytes the reader handed over during one call) depends on how much spare capacity the
+/// real BytesMut happens to have; the model only knows a lower bound.  It is what the observer
+/// needs (real value in the real trace) but it is not compared with the prediction.
+fn comparable(e: &Value) -> Value {
+    let mut e = e.clone();
+    if let Some(o) = e.as_object_mut() {
+        o.remove("rd");
+    }
+    e
+}
+
 struct Replayed {
     real: Vec<Value>,
     first_mismatch: Option<usize>,
@@ -479,7 +490,7 @@ fn replay_case(ev: &[Value], cache: &mut FrameCache, stats: &mut Stats, current:
             }
         };
         stats.events += 1;
-        let same = got == *e;
+        let same = comparable(&got) == comparable(e);
         real.push(got);
         current.lock().unwrap().push(real.last().unwrap().clone());
         if !same && first_mismatch.is_none() {
